@@ -87,7 +87,11 @@ func replay(pkgPath string, harnessNames []string, cases []replayCase, race bool
 	if err != nil {
 		return nil, err
 	}
-	defer os.RemoveAll(tmp)
+	if os.Getenv("VERIF_KEEP_REPLAY") == "" {
+		defer os.RemoveAll(tmp)
+	} else {
+		fmt.Fprintln(os.Stderr, "replay dir kept:", tmp)
+	}
 	rel := strings.TrimPrefix(strings.TrimPrefix(pkgPath, modPath), "/")
 	pkgName := packageNameOf(filepath.Join(repoDir, rel))
 	var reg strings.Builder
@@ -131,6 +135,9 @@ func replay(pkgPath string, harnessNames []string, cases []replayCase, race bool
 		ctx, cancel := context.WithTimeout(context.Background(), 60*time.Second)
 		c := exec.CommandContext(ctx, bin, "-test.run", "^TestVerifReplay$", "-test.count=1", "-test.timeout=50s")
 		c.Dir = filepath.Join(repoDir, rel)
+		if _, err := os.Stat(c.Dir); err != nil {
+			c.Dir = repoDir
+		}
 		c.Env = append(os.Environ(), "VERIF_REPLAY_FILE="+caseFile, fmt.Sprintf("VERIF_CASE=%d", k), "VERIF_CASE_TIMEOUT=15s", "GORACE=halt_on_error=0")
 		var o bytes.Buffer
 		c.Stdout, c.Stderr = &o, &o
@@ -352,13 +359,16 @@ func report(cc *checkCfg, tier string, seed int, res *results, ran []*harnessCfg
 					continue
 				}
 				broken("ENGINE-MISMATCH harness=%s key=%q predicted %s (%s) but native replay gave %s", h.Name, v.Key, v.Expect, v.Msg, st)
+				vb, _ := json.MarshalIndent(v, "", " ")
+				os.WriteFile(filepath.Join(replayDir, "unconfirmed_"+sanitize(h.Name+"__"+v.Key)+".json"), vb, 0644)
 				continue
 			}
 			totalViol++
-			fn := filepath.Join(replayDir, sanitize(h.Name+"__"+v.Key)+".json")
-			if len(fn) > 200 {
-				fn = fn[:200] + ".json"
+			base := sanitize(h.Name + "__" + v.Key)
+			if len(base) > 120 {
+				base = base[:120]
 			}
+			fn := filepath.Join(replayDir, fmt.Sprintf("%s_%08x.json", base, fnv32(h.Name+"|"+v.Key)))
 			v.Confirmed = st
 			vb, _ := json.MarshalIndent(v, "", " ")
 			os.WriteFile(fn, vb, 0644)
@@ -581,4 +591,13 @@ func clockOverlay(tmp string, ov map[string]string) {
 			return nil
 		})
 	}
+}
+
+func fnv32(s string) uint32 {
+	h := uint32(2166136261)
+	for i := 0; i < len(s); i++ {
+		h ^= uint32(s[i])
+		h *= 16777619
+	}
+	return h
 }
